@@ -1,11 +1,295 @@
 /-
-C06 — property theorems for the numeric operators and rounding functions.
+C06 — property theorems: numeric operators and rounding functions follow XPath F&O arithmetic.
+Only statements a reader needs; proofs are in EPV/Lemmas/Arith*.lean.
+
+Reading guide
+* `Num`        a Python object of the implementation: `int n`, `dec n s` (Decimal n·10^-s), `dbl d`
+               (float), `flt d` (elementpath `Float`);  `absNum : Num → XVal` is its XDM value
+* `opAdd … opIdiv`, `fnRound …`  transcriptions of the Python operators (EPV/Model/Arith.lean,
+               tree with the `fix:` commits of branch fix-c06)
+* `specBin`, `specUn`, `trunc`, `roundHalfUp`, `roundHalfEven`  F&O 3.1 §4.2 / §4.4 (EPV/Spec/FOArith.lean)
+* `R : Rounding`  IEEE-754 rounding to binary64 / binary32: an uninterpreted parameter (trusted
+               hardware); every theorem holds for all `R`
+* `trigF06c/t/x/p`, `trigIdef_bin`  decidable trigger predicates of the known findings / of the
+               implementation-defined region (more than 28 decimal digits)
 -/
-import EPV.Lemmas.ArithInt
+import EPV.Lemmas.ArithOps
 namespace EPV.C06
 open EPV.Arith EPV.FOArith
 
-/-- `idiv` on two integers is truncating division, for all (unbounded) integers. -/
-theorem idiv_int_eq_tdiv (a b : Int) : idivInt a b = Int.tdiv a b := idivInt_eq_tdiv a b
+/-! ## xs:integer: unbounded `Int` -/
+
+/-- `idiv` on integers (Python floor division + the exactness-guarded `+1`) is truncation toward zero,
+for all integers (for `b = 0` both sides are 0; the operator raises FOAR0001 before, see `div_zero_table`). -/
+theorem idiv_eq_spec (a b : Int) : idivInt a b = Int.tdiv a b := idivInt_eq_tdiv a b
+
+/-- `mod` on integers takes the sign of the dividend: it is the remainder of the truncating division. -/
+theorem mod_eq_spec (a b : Int) : modInt a b = Int.tmod a b := modInt_eq_tmod a b
+
+/-- F&O 4.2.7: `a = (a idiv b) * b + (a mod b)` for all integers. -/
+theorem div_mod_identity (a b : Int) : a = idivInt a b * b + modInt a b := idiv_mod_identity_int a b
+
+/-- The whole operator on two xs:integer operands: result value, result type and FOAR0001 for `b = 0`
+agree with F&O (`idiv`, `mod`; `+ - *` below). -/
+theorem idiv_int_op_eq_spec (R : Rounding) (a b : Int) :
+    (opIdiv R (.int a) (.int b)).map absNum = specBin R .idiv (.integer a) (.integer b) :=
+  idiv_int_int_eq_spec R a b
+
+theorem mod_int_op_eq_spec (R : Rounding) (v : Ver) (a b : Int) :
+    (opMod R v (.int a) (.int b)).map absNum = specBin R .mod (.integer a) (.integer b) :=
+  mod_int_int_eq_spec R v a b
+
+/-- the truncation used by the specification is `Int.tdiv` on integers -/
+theorem spec_trunc_is_tdiv (a b : Int) (hb : b ≠ 0) : trunc ((a : Rat) / (b : Rat)) = Int.tdiv a b :=
+  trunc_div_int a b hb
+
+/-- test (literals): the four sign combinations, exact and inexact -/
+example : idivInt (-6) 2 = -3 ∧ idivInt 6 (-2) = -3 ∧ idivInt (-7) 2 = -3 ∧ idivInt 7 (-2) = -3 ∧
+    idivInt (-7) (-2) = 3 ∧ modInt 5 (-3) = 2 ∧ modInt (-5) 3 = -2 ∧ modInt (-5) (-3) = -2 := by decide
+
+/-! ## xs:decimal (and mixed integer/decimal): coefficient and scale, exact -/
+
+/-- `+` on any combination of xs:integer / xs:decimal operands is exact and of the promoted type, as
+long as the exact result has at most 28 significant digits (`trigIdef_bin`: beyond that F&O leaves
+the result implementation-defined and Python rounds it). -/
+theorem add_exact (R : Rounding) (a b : Num) (x : Int) (sx : Nat) (y : Int) (sy : Nat)
+    (ha : asDec a = some (x, sx)) (hb : asDec b = some (y, sy)) (hfit : trigIdef_bin .add a b = false) :
+    (opAdd R a b).map absNum = specBin R .add (absNum a) (absNum b) :=
+  add_exact_eq_spec R a b x sx y sy ha hb hfit
+
+theorem sub_exact (R : Rounding) (a b : Num) (x : Int) (sx : Nat) (y : Int) (sy : Nat)
+    (ha : asDec a = some (x, sx)) (hb : asDec b = some (y, sy)) (hfit : trigIdef_bin .sub a b = false) :
+    (opSub R a b).map absNum = specBin R .sub (absNum a) (absNum b) :=
+  sub_exact_eq_spec R a b x sx y sy ha hb hfit
+
+theorem mul_exact (R : Rounding) (a b : Num) (x : Int) (sx : Nat) (y : Int) (sy : Nat)
+    (ha : asDec a = some (x, sx)) (hb : asDec b = some (y, sy)) (hfit : trigIdef_bin .mul a b = false) :
+    (opMul R a b).map absNum = specBin R .mul (absNum a) (absNum b) :=
+  mul_exact_eq_spec R a b x sx y sy ha hb hfit
+
+/-- `idiv` on integer/decimal operands: truncated exact quotient as an xs:integer, FOAR0001 for a
+zero divisor (quotients of more than 28 digits excluded: FOAR0002 is raised there). -/
+theorem idiv_dec_eq_spec (R : Rounding) (a b : Num) (x : Int) (sx : Nat) (y : Int) (sy : Nat)
+    (ha : asDec a = some (x, sx)) (hb : asDec b = some (y, sy)) (hfit : trigIdef_bin .idiv a b = false) :
+    (opIdiv R a b).map absNum = specBin R .idiv (absNum a) (absNum b) :=
+  idiv_exact_eq_spec R a b x sx y sy ha hb hfit
+
+/-- `mod` on integer/decimal operands: `a - b * trunc(a/b)` exactly (sign of the dividend). -/
+theorem mod_dec_eq_spec (R : Rounding) (v : Ver) (a b : Num) (x : Int) (sx : Nat) (y : Int) (sy : Nat)
+    (ha : asDec a = some (x, sx)) (hb : asDec b = some (y, sy)) (hfit : trigIdef_bin .mod a b = false) :
+    (opMod R v a b).map absNum = specBin R .mod (absNum a) (absNum b) :=
+  mod_exact_eq_spec R v a b x sx y sy ha hb hfit
+
+/-- `a = (a idiv b) * b + (a mod b)` on decimals, as exact rationals. -/
+theorem div_mod_identity_dec (a : Int) (sa : Nat) (b : Int) (sb : Nat) (hb : b ≠ 0) (q : Int) (r : Int × Nat)
+    (hq : decIdiv a sa b sb = some q) (hr : decMod a sa b sb = some r)
+    (hfit : numDigits ((a.natAbs * p10 (max sa sb - sa)) % (b.natAbs * p10 (max sa sb - sb))) ≤ 28) :
+    decVal a sa = (q : Rat) * decVal b sb + decVal r.1 r.2 := by
+  rw [decMod_eq_spec a sa b sb hb r hr hfit, decIdiv_eq_trunc a sa b sb hb q hq]
+  ring
+
+/-- the hypotheses are satisfiable on non-trivial values: -7.5 idiv 2 = -3, -7.5 mod 2 = -1.5 -/
+example : decIdiv (-75) 1 2 0 = some (-3) ∧ decMod (-75) 1 2 0 = some (-15, 1) ∧
+    trigIdef_bin .mod (.dec (-75) 1) (.int 2) = false ∧ decAdd 15 1 25 2 = (175, 2) := by decide
+
+/-! ## Division by zero -/
+
+/-- XPath 2.0+: a zero xs:integer / xs:decimal divisor with an integer/decimal dividend raises
+FOAR0001 for `div`, `idiv` and `mod`. -/
+theorem div_zero_table (R : Rounding) (v : Ver) (hv : v ≠ .v10) (a b : Num)
+    (ha : isFloat a = false) (hb : isFloat b = false) (hz : isZero b = true) :
+    opDiv R v a b = .error .FOAR0001 ∧ opIdiv R a b = .error .FOAR0001 ∧ opMod R v a b = .error .FOAR0001 :=
+  div_zero_exact R v hv a b ha hb hz
+
+/-- xs:double `div`: the complete IEEE table — x div ±0 = ±INF by the signs, 0 div 0 = NaN, NaN
+propagates, INF div INF = NaN, finite div finite = the rounded exact quotient — for all operands. -/
+theorem div_double_eq_spec (R : Rounding) (v : Ver) (x y : Dbl) (hx : x.wf) :
+    (opDiv R v (.dbl x) (.dbl y)).map absNum = specBin R .div (.double x) (.double y) :=
+  div_dbl_eq_spec R v x y hx
+
+/-- xs:double `idiv`: FOAR0001 for a ±0 divisor, FOAR0002 for NaN operands / infinite dividend, 0 for
+an infinite divisor, otherwise the truncated exact quotient (model assumption: Python's float `//`
+is the exact floor, true for |quotient| < 2^51). -/
+theorem idiv_double_eq_spec (R : Rounding) (x y : Dbl) :
+    (opIdiv R (.dbl x) (.dbl y)).map absNum = specBin R .idiv (.double x) (.double y) :=
+  idiv_dbl_eq_spec R x y
+
+/-- PARTIAL (known finding F06x): xs:double `mod` = F&O / IEEE fmod (exact remainder of the truncating
+division, NaN for an infinite dividend or zero divisor, the dividend for an infinite divisor, signed
+zeros) — except that the XPath 1.0 parser returns NaN for `finite mod ±INF`.
+Full statement (false on the tree): the same without `hk`. -/
+theorem mod_double_eq_spec_partial (R : Rounding) (v : Ver) (x y : Dbl)
+    (hk : trigF06x R v .mod (.dbl x) (.dbl y) = false) :
+    (opMod R v (.dbl x) (.dbl y)).map absNum = specBin R .mod (.double x) (.double y) :=
+  mod_dbl_eq_spec_partial R v x y hk
+
+/-- F06x witness (kernel-checked, any rounding): XPath 1.0, 5 mod INF is NaN, the specification says 5. -/
+theorem mod_double_fails_v10 (R : Rounding) :
+    trigF06x R .v10 .mod (.dbl (.fin 5)) (.dbl (.inf false)) = true ∧
+    (opMod R .v10 (.dbl (.fin 5)) (.dbl (.inf false))).map absNum = .ok (.double .nan) ∧
+    specBin R .mod (.double (.fin 5)) (.double (.inf false)) = .ok (.double (.fin 5)) := by
+  refine ⟨rfl, rfl, rfl⟩
+
+/-- the hypothesis of the partial theorem is satisfiable: -6.5 mod 4 = -2.5 in every version -/
+example : trigF06x ieee .v10 .mod (.dbl (.fin (-13/2))) (.dbl (.fin 4)) = false ∧
+    opMod ieee .v10 (.dbl (.fin (-13/2))) (.dbl (.fin 4)) = .ok (.dbl (.fin (-5/2))) := by
+  refine ⟨by decide +kernel, by decide +kernel⟩
+
+/-! ## Result types -/
+
+/-- `+ - *` return a value of the promoted type (integer ⊂ decimal → float → double) for every
+combination of operand classes. -/
+theorem type_promotion_table (R : Rounding) (a b r : Num) :
+    (opAdd R a b = .ok r → numTy r = promote (numTy a) (numTy b)) ∧
+    (opSub R a b = .ok r → numTy r = promote (numTy a) (numTy b)) ∧
+    (opMul R a b = .ok r → numTy r = promote (numTy a) (numTy b)) :=
+  type_promotion_addsubmul R a b r
+
+/-- `idiv` always returns an xs:integer. -/
+theorem idiv_type (R : Rounding) (a b r : Num) (h : opIdiv R a b = .ok r) : numTy r = .integer :=
+  type_idiv R a b r h
+
+/-- PARTIAL (known finding F06t): `div` returns the type of XPath 3.1 B.2 (xs:decimal for two integers,
+else the promoted type) — except in the zero-divisor branch with xs:float operands, which returns an
+xs:double.  Full statement (false): without `hk`. -/
+theorem div_type_partial (R : Rounding) (v : Ver) (hv : v ≠ .v10) (a b r : Num) (h : opDiv R v a b = .ok r)
+    (hk : trigF06t R v .div a b = false) : numTy r = resultTy .div (numTy a) (numTy b) :=
+  type_div_partial R v hv a b r h hk
+
+/-- PARTIAL (known finding F06t): `mod` returns the promoted type — except for a zero divisor with
+xs:float operands (xs:double NaN) and for `a mod ±INF`, which returns `a` unpromoted. -/
+theorem mod_type_partial (R : Rounding) (v : Ver) (hv : v ≠ .v10) (a b r : Num) (h : opMod R v a b = .ok r)
+    (hk : trigF06t R v .mod a b = false) : numTy r = resultTy .mod (numTy a) (numTy b) :=
+  type_mod_partial R v hv a b r h hk
+
+/-- F06t witnesses (kernel-checked, any rounding): `5 mod xs:double('INF')` is the xs:integer 5,
+`xs:float('1') div 0` is an xs:double. -/
+theorem type_fails_mod_inf (R : Rounding) :
+    trigF06t R .v20 .mod (.int 5) (.dbl (.inf false)) = true ∧
+    opMod R .v20 (.int 5) (.dbl (.inf false)) = .ok (.int 5) ∧
+    resultTy .mod (numTy (.int 5)) (numTy (.dbl (.inf false))) = .double := by
+  refine ⟨rfl, rfl, rfl⟩
+
+theorem type_fails_float_div_zero (R : Rounding) :
+    trigF06t R .v20 .div (.flt (.fin 1)) (.int 0) = true ∧
+    opDiv R .v20 (.flt (.fin 1)) (.int 0) = .ok (.dbl (.inf false)) ∧
+    resultTy .div (numTy (.flt (.fin 1))) (numTy (.int 0)) = .float := by
+  refine ⟨rfl, rfl, rfl⟩
+
+/-- the hypothesis of the partial type theorems is satisfiable on a non-trivial state -/
+example (R : Rounding) : trigF06t R .v20 .mod (.dbl (.fin 7)) (.dbl (.inf true)) = false ∧
+    opMod R .v20 (.dbl (.fin 7)) (.dbl (.inf true)) = .ok (.dbl (.fin 7)) := by
+  refine ⟨rfl, rfl⟩
+
+/-! ## Rounding functions -/
+
+/-- fn:round as the code computes it — `Decimal.quantize` on sign and magnitude, ROUND_HALF_UP for
+positive numbers and ROUND_HALF_DOWN otherwise — is ⌊x·10^p + 1/2⌋ / 10^p for every rational `x` and
+every precision `p` (positive, zero or negative). -/
+theorem round_eq_floor_half (x : Rat) (p : Int) :
+    unscale (decide (x < 0)) (quantMag (if x > 0 then .halfUp else .halfDown) x p) p = roundHalfUp x p :=
+  quantize_round_eq x p
+
+/-- round-half-to-even as the code computes it (ROUND_HALF_EVEN on sign and magnitude) is the F&O
+definition (nearest multiple of 10^-p, ties to the even one), any precision. -/
+theorem round_half_even_spec (x : Rat) (p : Int) :
+    unscale (decide (x < 0)) (quantMag .halfEven x p) p = roundHalfEven x p :=
+  quantize_rhe_eq x p
+
+/-- PARTIAL (known finding F06p): fn:round on an xs:decimal returns the F&O value — unless the rounded
+coefficient needs more than 28 digits (then `quantize` raises and the code rounds to an integer). -/
+theorem round_decimal_partial (R : Rounding) (n : Int) (s : Nat) (p : Int)
+    (hk : trigF06p (.round p) (.dec n s) = false) :
+    absNum (fnRound R (.dec n s) p) = specUn R (.round p) (.decimal (decVal n s)) :=
+  round_dec_eq_spec R n s p hk
+
+theorem round_integer_partial (R : Rounding) (n : Int) (p : Int)
+    (hk : trigF06p (.round p) (.int n) = false) :
+    absNum (fnRound R (.int n) p) = specUn R (.round p) (.integer n) :=
+  round_int_eq_spec R n p hk
+
+/-- fn:round on an xs:double: NaN, ±INF, ±0 unchanged; otherwise the rounded exact value converted
+back, a zero result keeping the sign of the argument (round(-0.4e0) = -0). -/
+theorem round_double_partial (R : Rounding) (d : Dbl) (p : Int)
+    (hk : trigF06p (.round p) (.dbl d) = false) :
+    absNum (fnRound R (.dbl d) p) = specUn R (.round p) (.double d) := by
+  show absNum (roundCore R (.dbl d) p) = _
+  rw [round_dbl_eq_spec R d p hk]; rfl
+
+/-- F06p witness (kernel-checked): round(1234.5, 26) = 1234, the specification says 1234.5. -/
+theorem round_fails_large_precision (R : Rounding) :
+    trigF06p (.round 26) (.dec 12345 1) = true ∧
+    fnRound R (.dec 12345 1) 26 = .dec 1234 0 ∧
+    specUn R (.round 26) (.decimal (12345 / 10)) = .decimal (12345 / 10) := by
+  refine ⟨by decide +kernel, ?_, ?_⟩
+  · have : fnRound ieee (.dec 12345 1) 26 = .dec 1234 0 := by decide +kernel
+    exact this
+  · have : specUn ieee (.round 26) (.decimal (12345 / 10)) = .decimal (12345 / 10) := by decide +kernel
+    exact this
+
+/-- round-half-to-even on xs:decimal (PARTIAL, F06p: 28-digit limit), xs:integer and xs:double. -/
+theorem round_half_even_decimal_partial (R : Rounding) (n : Int) (s : Nat) (p : Int)
+    (hk : trigF06p (.rhe p) (.dec n s) = false) :
+    absNum (fnRhe R (.dec n s) p) = specUn R (.rhe p) (.decimal (decVal n s)) :=
+  rhe_dec_eq_spec R n s p hk
+
+theorem round_half_even_integer (R : Rounding) (n : Int) (p : Int) :
+    absNum (fnRhe R (.int n) p) = specUn R (.rhe p) (.integer n) :=
+  rhe_int_eq_spec R n p
+
+theorem round_half_even_double (R : Rounding) (d : Dbl) (p : Int) :
+    absNum (fnRhe R (.dbl d) p) = specUn R (.rhe p) (.double d) := by
+  rw [rhe_dbl_eq_spec R d p]; rfl
+
+/-- floor / ceiling on xs:double: special values unchanged, ⌊x⌋ / ⌈x⌉ converted back, and a zero
+result takes the sign of the argument (ceiling(-0.4e0) = -0, floor(-0e0) = -0). -/
+theorem floor_ceiling_double (R : Rounding) (d : Dbl) :
+    absNum (fnFloorCeil R false (.dbl d)) = specUn R .floor (.double d) ∧
+    absNum (fnFloorCeil R true (.dbl d)) = specUn R .ceiling (.double d) := by
+  constructor
+  · show XVal.double (fnFloorCeil.go R false d) = _
+    rw [floorceil_dbl_eq_spec]; rfl
+  · show XVal.double (fnFloorCeil.go R true d) = _
+    rw [floorceil_dbl_eq_spec]; rfl
+
+/-- unary minus and fn:abs on xs:double / xs:integer are exact, with the IEEE sign rules
+(-(0e0) = -0, abs(-0e0) = 0, abs(-INF) = INF, NaN unchanged). -/
+theorem neg_abs_double (R : Rounding) (d : Dbl) (n : Int) :
+    absNum (opNeg (.dbl d)) = specUn R .neg (.double d) ∧
+    absNum (fnAbs (.dbl d)) = specUn R .abs (.double d) ∧
+    absNum (opNeg (.int n)) = specUn R .neg (.integer n) := by
+  refine ⟨rfl, rfl, ?_⟩
+  simp [opNeg, absNum, specUn, exactUn]
+  rw [← Int.cast_neg, floor_intCast']
+
+/-- tests (literals): round(2.5)=3, round(-2.5)=-2, round(25,-1)=30, round(-235,-1)=-230,
+round-half-to-even(2.5)=2, (3.5)=4, (35612.25,-2)=35600 -/
+example : fnRound ieee (.dec 25 1) 0 = .dec 3 0 ∧ fnRound ieee (.dec (-25) 1) 0 = .dec (-2) 0 ∧
+    fnRound ieee (.int 25) (-1) = .int 30 ∧ fnRound ieee (.int (-235)) (-1) = .int (-230) ∧
+    fnRhe ieee (.dec 25 1) 0 = .dec 2 0 ∧ fnRhe ieee (.dec 35 1) 0 = .dec 4 0 ∧
+    fnRhe ieee (.dec 3561225 2) (-2) = .dec 35600 0 := by
+  have h : fnRound ieee (.dec 25 1) 0 = .dec 3 0 ∧ fnRound ieee (.dec (-25) 1) 0 = .dec (-2) 0 ∧
+      fnRound ieee (.int 25) (-1) = .int 30 ∧ fnRound ieee (.int (-235)) (-1) = .int (-230) ∧
+      fnRhe ieee (.dec 25 1) 0 = .dec 2 0 ∧ fnRhe ieee (.dec 35 1) 0 = .dec 4 0 ∧
+      fnRhe ieee (.dec 3561225 2) (-2) = .dec 35600 0 := by
+    refine ⟨by decide +kernel, by decide +kernel, by decide +kernel, by decide +kernel, by decide +kernel,
+      by decide +kernel, by decide +kernel⟩
+  exact h
+
+/-! ## xs:float (known finding F06c) -/
+
+/-- F06c witness (kernel-checked, with the concrete round-to-nearest-even `ieee`):
+xs:float(16777216) + xs:float(1) is 16777217 in the code (binary64 arithmetic), 16777216 in binary32. -/
+theorem float_add_not_binary32 :
+    trigF06c_bin .add (.flt (.fin 16777216)) (.flt (.fin 1)) = true ∧
+    (opAdd ieee (.flt (.fin 16777216)) (.flt (.fin 1))).map absNum = .ok (.float (.fin 16777217)) ∧
+    specBin ieee .add (.float (.fin 16777216)) (.float (.fin 1)) = .ok (.float (.fin 16777216)) := by
+  refine ⟨by decide +kernel, by decide +kernel, by decide +kernel⟩
+
+/-- outside F06c (binary32-safe operands and result) the xs:float sum is the specified one -/
+example : trigF06c_bin .add (.flt (.fin (5/2))) (.flt (.fin (3/4))) = false ∧
+    (opAdd ieee (.flt (.fin (5/2))) (.flt (.fin (3/4)))).map absNum =
+      specBin ieee .add (.float (.fin (5/2))) (.float (.fin (3/4))) := by
+  refine ⟨by decide +kernel, by decide +kernel⟩
 
 end EPV.C06
